@@ -49,11 +49,11 @@ def gen_cases(tier, seed):
             ls[0] = 1 + (i // 4) % 4
         tp = list(bases.type_patterns(nsh)[(i // 2) % (2 ** nsh)]) if i % 2 else None
         shells, classes = bases.rand_basis(rng, ls, types=tp, scale=1.0, emax_fn=lambda l: min(bases.cap(l), 200.0))
-        pts, pcls = bases.rand_points(rng, shells, int(rng.integers(1, 31)))
+        pts, pcls = bases.rand_points(rng, shells, bases.npts_pick(rng, 31))
         ntot = sum(bases.nfunc(s) for s in shells)
         T, tcls = bases.rand_transform(rng, ntot, "none" if i % 3 else None)
         norb = ntot if T is None else len(T)
-        dm, dcls = bases.rand_sym(rng, norb, ["psd", "indef", "psd-lowrank", "indef", "diag", "psd"][i % 6] if i % 17 else "zero")
+        dm, dcls = bases.rand_sym(rng, norb, ["psd", "indef", "psd-lowrank", "indef", "diag", "psd", "diag-indef", "idempotent", "blockdiag", "diag-indef"][i % 10] if i % 17 else "zero")
         alpha = [0, 1, -1, 0.5, float(rng.normal()), 2][i % 6]
         orders = [list(pool[2 * i]), list(pool[2 * i + 1])]
         cases.append({"shells": shells, "points": pts, "dm": dm, "transform": T, "alpha": alpha, "orders": orders,
